@@ -29,9 +29,10 @@ CONTAINER_ONLY = {"add", "update", "pop", "remove", "discard", "clear", "sort", 
 
 
 class Store:
-    __slots__ = ("file", "func", "line", "kind", "target", "base", "cls", "owner", "pidx", "own_star")
+    __slots__ = ("file", "func", "line", "kind", "target", "base", "cls", "owner", "pidx", "own_star", "origin")
 
-    def __init__(self, file, func, line, kind, target, base, cls, owner, pidx=None, own_star=False):
+    def __init__(self, file, func, line, kind, target, base, cls, owner, pidx=None, own_star=False, origin=None):
+        self.origin = origin  # ('elem-of-param', k) | ('elem-of-result', callee): the base is the loop variable of `for base in <parameter k | local unpacked from callee(...)>`
         self.pidx = pidx  # position of the base among the function's positional parameters (None: not a parameter)
         self.own_star = own_star  # the base is the function's own *args / **kwargs (an object created for this call)
         self.file = file
@@ -100,6 +101,8 @@ class FunctionEffects(ast.NodeVisitor):
         self.star_names = {x.arg for x in (a_.vararg, a_.kwarg) if x is not None} if a_ is not None else set()
         self.module_names = module_names
         self.assigned: dict[str, list] = {}
+        self.loop_over: dict[str, list] = {}
+        self.unpacked_from: dict[str, list] = {}
         self.stores: list[Store] = []
         self.globals_declared: set[str] = set()
         body = fn.body if hasattr(fn, "body") else []
@@ -115,10 +118,16 @@ class FunctionEffects(ast.NodeVisitor):
             if isinstance(sub, ast.Assign):
                 for t in sub.targets:
                     self._bind(t, sub.value)
+                    if isinstance(t, (ast.Tuple, ast.List)) and isinstance(sub.value, ast.Call) and isinstance(sub.value.func, ast.Name):
+                        for e in t.elts:
+                            if isinstance(e, ast.Name):
+                                self.unpacked_from.setdefault(e.id, []).append(sub.value.func.id)
             elif isinstance(sub, ast.AnnAssign) and sub.value is not None:
                 self._bind(sub.target, sub.value)
             elif isinstance(sub, (ast.For, ast.comprehension)):
                 self._bind(sub.target, None)
+                if isinstance(sub.target, ast.Name) and isinstance(sub.iter, ast.Name):
+                    self.loop_over.setdefault(sub.target.id, []).append(sub.iter.id)
             elif isinstance(sub, ast.With):
                 for it in sub.items:
                     if it.optional_vars is not None:
@@ -142,7 +151,7 @@ class FunctionEffects(ast.NodeVisitor):
             return "global"
         if base in self.assigned and base not in self.params:
             vals = self.assigned[base]
-            if vals and all(v is not None and _is_alloc(v) for v in vals):
+            if vals and all(v is not None and (_is_alloc(v) or self._fresh_call(v)) for v in vals):
                 return "fresh"
             # an alias of other names (order = _coordinate_order): as fresh / global as what it aliases
             if _depth < 3 and vals and all(isinstance(v, ast.Name) and v.id != base for v in vals):
@@ -155,6 +164,22 @@ class FunctionEffects(ast.NodeVisitor):
         if base in self.params:
             return "borrowed"
         return "global"  # module-level / imported name
+
+    def origin_of(self, base):
+        its = self.loop_over.get(base)
+        if not its or len(set(its)) != 1 or len(self.assigned.get(base, [])) != len(its):
+            return None
+        src = its[0]
+        if src in self.positional and src not in self.assigned:
+            return ("elem-of-param", self.positional.index(src))
+        fs = self.unpacked_from.get(src)
+        if fs and len(set(fs)) == 1 and len(self.assigned.get(src, [])) == len(fs):
+            return ("elem-of-result", fs[0])
+        return None
+
+    def _fresh_call(self, v):
+        """a call of a module-level function of the same file whose every return hands back an object it allocated itself"""
+        return isinstance(v, ast.Call) and isinstance(v.func, ast.Name) and v.func.id in self.module_names.get("fresh_fns", ())
 
     def is_container(self, node):
         if _is_container_expr(node):
@@ -178,7 +203,7 @@ class FunctionEffects(ast.NodeVisitor):
             if depth == 1 and isinstance(target, ast.Subscript):
                 c = "self-item"
         self.stores.append(Store(self.file, self.qual, getattr(node, "lineno", 0), kind, unparse(target)[:80], base, c, self.owner,
-                                 self.positional.index(base) if base in self.positional else None, base in self.star_names))
+                                 self.positional.index(base) if base in self.positional else None, base in self.star_names, self.origin_of(base)))
 
     def visit_FunctionDef(self, node):
         return  # nested functions are analysed separately
@@ -329,7 +354,16 @@ def analyse_file(path, repo):
             for al in st.names:
                 if al.name in _package_containers(repo):
                     containers.add(al.asname or al.name)
-    module_names = {"containers": containers}
+    module_names = {"containers": containers, "fresh_fns": set()}
+    # module-level functions that return only objects they allocated themselves (two passes: such a function may call another one)
+    for _ in range(2):
+        for st in tree.body:
+            if isinstance(st, ast.FunctionDef):
+                params = [a.arg for a in st.args.posonlyargs + st.args.args + st.args.kwonlyargs]
+                fe0 = FunctionEffects(relp, st.name, None, st, params, module_names)
+                rets = [r.value for r in ast.walk(st) if isinstance(r, ast.Return)]
+                if rets and all(r is not None and ((isinstance(r, ast.Name) and fe0.classify(r.id) == "fresh") or (not isinstance(r, ast.Name) and (_is_alloc(r) or fe0._fresh_call(r)))) for r in rets):
+                    module_names["fresh_fns"].add(st.name)
     out = []
 
     def walk(body, prefix, owner):
@@ -390,7 +424,15 @@ def helper_call_sites(repo):
                     fr = []
                     for a in node.args:
                         if isinstance(a, ast.Name):
-                            fr.append("fresh" if (a.id in stars or fe.classify(a.id) == "fresh") else "borrowed")
+                            positional = [x.arg for x in fn.args.posonlyargs + fn.args.args]
+                            if a.id in stars or fe.classify(a.id) == "fresh":
+                                fr.append("fresh")
+                            elif a.id in positional and a.id not in fe.assigned:
+                                fr.append(("param", qual, positional.index(a.id)))  # the caller's own parameter, handed on unchanged
+                            elif len(set(fe.unpacked_from.get(a.id, []))) == 1 and len(fe.assigned.get(a.id, [])) == len(fe.unpacked_from[a.id]):
+                                fr.append(("result-of", fe.unpacked_from[a.id][0], qual))  # a local unpacked from the result of one callee
+                            else:
+                                fr.append("borrowed")
                         else:
                             fr.append("fresh" if _is_alloc(a) else "borrowed")
                     sites.setdefault((relp, node.func.id), []).append(fr)
